@@ -1000,6 +1000,17 @@ impl Scenario for Truncate {
                 extra_cuts.extend(first_b.off as u64..=input.len() as u64);
             }
             label = format!("{n_a} selected packets then skipped ones");
+        } else if special == 2 {
+            // small arbitrary-framed packets, header-only ones (offset-to-next 64) among them
+            let n = rng.range(3, 10) as usize;
+            let base = gen_arbitrary(&mut rng, n, 48, 2);
+            let empty: Vec<bool> = (0..n).map(|_| rng.chance(1, 3)).collect();
+            input = rebuild_stream(&base, &mut |i, _r, payload| {
+                if empty[i] {
+                    payload.clear();
+                }
+            });
+            label = "small packets, header-only ones among them".to_string();
         }
         let len = input.len() as u64;
         let full_enum_limit = match tier {
@@ -1049,7 +1060,7 @@ impl Scenario for Truncate {
         cuts.extend(extra_cuts.iter().copied().filter(|c| *c <= len));
         cuts.sort_unstable();
         cuts.dedup();
-        let arbitrary_payloads = special <= 1;
+        let arbitrary_payloads = special <= 2;
         let mut parts: Vec<String> = if rows_mode {
             let v = if arbitrary_payloads || rng.chance(1, 2) { VIEW_MODES[0] } else { VIEW_MODES[1] };
             label = format!("{} | {label}", v.join(" "));
